@@ -10,6 +10,7 @@ EXT, EXP = 1, 2
 
 
 # ------------------------------------------------------------------ virtual time
+_RUNS = 0
 MAX_WALL = 30.0      # seconds of processor time a single simulation may take (checks with long runs raise it)
 
 
@@ -258,6 +259,17 @@ def run_internal(cfg, devs, speed=(1, 1), initial=0, stim=(), t_end=3_000_000_00
     from tickit.core.management.event_router import InverseWiring
     from tickit.core.management.schedulers.master import MasterScheduler
     from tickit.core.state_interfaces.state_interface import get_interface
+
+    # every other simulation runs with debug logging switched on (records are made and thrown away): what a
+    # simulation does must not depend on the logging level
+    import logging
+    global _RUNS
+    _RUNS += 1
+    lg = logging.getLogger("tickit")
+    if not any(isinstance(h, logging.NullHandler) for h in lg.handlers):
+        lg.addHandler(logging.NullHandler())
+    lg.propagate = False
+    lg.setLevel(logging.DEBUG if _RUNS % 2 == 0 else logging.WARNING)
 
     import tickit.core.management.ticker as tk
 
